@@ -23,6 +23,7 @@ OPS = {
     "reg_x": ("register", ("x", U2), {}),
     "reg_x_meta": ("register", ("x", U1), {"metadata": ["m1"]}),
     "remove_x": ("remove", (), {"name": "x"}),
+    "remove_xy": ("remove", (), {"name": "xy"}),
     "remove_prefix_x": ("remove", (), {"prefix": "x"}),
     "remove_regex_x": ("remove", (), {"regex": "x.*"}),
     "setmeta_x": ("set_metadata", ("x", ["m2"]), {}),
@@ -135,7 +136,7 @@ def make_run(cfg):
     install_shims()
     from Pyro5 import config, nameserver, errors
     if cfg["backend"] == "memory":
-        watch = S.watch_functions(nameserver.NameServer, nameserver.MemoryStorage, follow=True)
+        watch = S.watch_functions(nameserver.NameServer, nameserver.MemoryStorage, nameserver.AutoCleaner.run, follow=True)
     else:
         watch = S.watch_functions(nameserver.NameServer, follow=True, exclude=S.code_objects(nameserver.SqlStorage))
     threads = cfg["threads"]     # list of lists of op names
@@ -148,6 +149,7 @@ def make_run(cfg):
         sch = S.Scheduler(chooser, watch=watch)
         sch.install()
         violations = []
+        restore = []
         try:
             if cfg["backend"] == "memory":
                 storage = None
@@ -181,6 +183,44 @@ def make_run(cfg):
                 return body
             for ti, ops in enumerate(threads):
                 sch.spawn(make_thread(ti, ops), "client-%d" % ti, role="driver")
+            cleaner_span = []
+            if cfg.get("cleaner"):
+                # the name server's own auto-clean thread makes one pass in which every registered server is unreachable for long enough:
+                # it removes names through whatever path the library uses, concurrently with the clients
+                config.NS_AUTOCLEAN = 1.0
+                real_su = nameserver.socketutil
+
+                class DeadNet:
+                    def create_socket(self, *a, **k):
+                        raise OSError(111, "Connection refused (harness)")
+
+                    def __getattr__(self, name):
+                        return getattr(real_su, name)
+                nameserver.socketutil = DeadNet()
+                restore.append(lambda: setattr(nameserver, "socketutil", real_su))
+                nameserver.AutoCleaner.override_autoclean_min = True
+                class OnePass(nameserver.AutoCleaner):
+                    _asked = 0
+
+                    @property
+                    def stop(self):             # the loop condition: true from the second time it is asked
+                        self._asked += 1
+                        return self._asked > 1
+
+                    @stop.setter
+                    def stop(self, value):
+                        pass
+                ac = OnePass(ns)
+                ac.last_cleaned = -1e9
+                ac.unreachable = {n: -1e9 for n in ("x", "xy")}
+
+                def cleaner_body():
+                    clock[0] += 1
+                    cleaner_span.append(clock[0])
+                    ac.run()
+                    clock[0] += 1
+                    cleaner_span.append(clock[0])
+                sch.spawn(cleaner_body, "cleaner", role="driver")
             outcome = sch.run()
 
             def V(fp, what):
@@ -221,7 +261,14 @@ def make_run(cfg):
                     want = 1 if "x" in init else 0
                     if total != want and not any(h[1] != "remove_x" and OPS[h[1]][0] == "remove" for h in history):
                         V("removal-counts-sum-%d" % total, "concurrent removals of one name reported %d removed entries, expected %d; history=%r" % (total, want, history))
-                if not linearizable(init, history, final):
+                variants = [history]
+                if len(cleaner_span) == 2:
+                    # what the cleaner did is not observed; whatever it was must be explainable as removals of the names it found
+                    # unreachable, each somewhere within its pass (or nothing at all, if a client was quicker)
+                    cx = ("cleaner", "remove_x", cleaner_span[0], cleaner_span[1], ("ok", 1))
+                    cxy = ("cleaner", "remove_xy", cleaner_span[0], cleaner_span[1], ("ok", 1))
+                    variants = [history, history + [cx], history + [cxy], history + [cx, cxy]]
+                if not any(linearizable(init, hv, final) for hv in variants):
                     kinds = "+".join(sorted({OPS[h[1]][0] + ("-prefix" if OPS[h[1]][2].get("prefix") else "") + ("-regex" if OPS[h[1]][2].get("regex") else "") for h in history if h[0] != "after"}))
                     V("not-linearizable|%s" % kinds, "no sequential order explains results and final state; init=%s history=%r final=%r" % (cfg["init"], history, final))
             res = {"outcome": repr((outcome, tuple(sorted((str(h[0]), h[1], h[4]) for h in history)), final)),
@@ -229,6 +276,8 @@ def make_run(cfg):
                    "states": [repr(final)],
                    "sample": {"cfg": cfg, "history": [(h[0], h[1], h[2], h[3], repr(h[4])) for h in history][:6]}}
         finally:
+            for f in restore:
+                f()
             sch.teardown()
             if cfg["backend"] != "memory" and os.path.exists(dbfile):
                 os.remove(dbfile)
@@ -275,6 +324,10 @@ def configs(tier):
     for t3 in rww:
         for init in (("empty", "x_xy") if t3[1] == "regsafe_x" else ("x",)):
             out.append({"backend": "memory", "init": init, "threads": [[o] for o in t3], "p": 2, "r": 4 if quick else 8})
+    # the auto-clean thread removes unreachable names while clients work on them
+    for th in ([["remove_x"]], [["lookup_x", "lookup_x"]], [["setmeta_x"]], [["list_prefix_x"]], [["regsafe_x"]]):
+        for init in ("x", "x_xy"):
+            out.append({"backend": "memory", "init": init, "threads": th, "cleaner": True, "p": 2, "r": 10 ** 6})
     # sqlite back-end: NameServer lines interleave, storage calls are atomic steps
     sql_pairs = [[["remove_x"], ["remove_x"]], [["regsafe_x"], ["regsafe2_x"]], [["remove_prefix_x"], ["regsafe_xy"]],
                  [["setmeta_x"], ["remove_x"]], [["remove_x"], ["reg_x"]], [["remove_regex_x"], ["remove_x"]]]
